@@ -81,6 +81,31 @@ def check_case(c, tier, R):
                 R.features[f] += 1
 
 
+def check_real_bases(c, R):
+    """REAL: the encoder's binEncBase option (8, 16) is one more encoder mode for base-2 values"""
+    for base in (8, 16):
+        R.evaluations += 1
+        R.nontrivial((c.T, M.freeze(c.v), 'binEncBase', base))
+        feats = c.feats | {'cfg:binEncBase%d' % base}
+        rec = c.record(binEncBase=base)
+        st = c.encode_real_base(base)
+        if st[0] == 'exc':
+            R.violation('encode.error', rec, CM.exc_text(st[1]), 'encoding succeeds', pyasn1_site(st[1]), feats, c.idx)
+            continue
+        data = st[1]
+        ok, why = CM.model_reads(c.T, data, c.v)
+        if not ok:
+            R.violation('roundtrip.value', rec, 'binEncBase=%d: %s: %s' % (base, data.hex(), why), repr(c.v), 'ber.encoder',
+                        feats | {'encoder_output_bad'}, c.idx)
+            continue
+        d = CM.decode_to_abs('ber', data, c.T, c.spec)
+        if d[0] != 'ok' or d[2] != b'' or not M.values_equal(c.T, d[1], c.v):
+            R.violation('roundtrip.value', rec, 'binEncBase=%d: %r from %s' % (base, d[1:] if d[0] != 'exc' else CM.exc_text(d[1]), data.hex()),
+                        repr(c.v), 'ber.decoder', feats | {'encoder_output_ok'}, c.idx)
+        else:
+            R.features['cfg:binEncBase%d' % base] += 1
+
+
 def shard(tier, i, n, seed):
     R = Result()
     for idx, name, T, v in CM.iter_cases(tier, i, n, seed):
@@ -91,6 +116,8 @@ def shard(tier, i, n, seed):
                         'value object can be built', pyasn1_site(e), CM.case_features(T, v), idx)
             continue
         guarded(R, lambda: check_case(c, tier, R), c.record(), c.feats, c.idx)
+        if c.is_binary_real():
+            guarded(R, lambda: check_real_bases(c, R), c.record(), c.feats, c.idx)
         R.features['slice:' + name] += 1
         if idx % 9973 == seed % 9973:
             R.sample({'T': M.show_type(T), 'v': v, 'ber_def': c.encode('ber', defMode=True)[1].hex()
